@@ -2171,8 +2171,10 @@ fn par_map<T: Sync, R: Send>(items: &[T], threads: usize, f: impl Fn(&T) -> R + 
     let cur: Vec<AtomicUsize> = (0..n_chunks).map(|_| AtomicUsize::new(0)).collect();
     let since: Vec<AtomicU64> = (0..n_chunks).map(|_| AtomicU64::new(0)).collect();
     let done = AtomicUsize::new(0);
+    // item a worker was already flagged for (so that a slow item is confirmed once, not every tick)
+    let flagged: Vec<AtomicUsize> = (0..n_chunks).map(|_| AtomicUsize::new(0)).collect();
     std::thread::scope(|s| {
-        let (f, cur, since, done, on_hang) = (&f, &cur, &since, &done, &on_hang);
+        let (f, cur, since, done, on_hang, flagged) = (&f, &cur, &since, &done, &on_hang, &flagged);
         let hs: Vec<_> = items
             .chunks(chunk)
             .enumerate()
@@ -2207,7 +2209,9 @@ fn par_map<T: Sync, R: Send>(items: &[T], threads: usize, f: impl Fn(&T) -> R + 
                 let now = t0.elapsed().as_millis() as u64;
                 for w in 0..n_chunks {
                     let i = cur[w].load(Ordering::SeqCst);
-                    if i != 0 && now.saturating_sub(since[w].load(Ordering::SeqCst)) > CASE_TIMEOUT_MS && cur[w].load(Ordering::SeqCst) == i {
+                    if i != 0 && flagged[w].load(Ordering::SeqCst) != i && now.saturating_sub(since[w].load(Ordering::SeqCst)) > CASE_TIMEOUT_MS && cur[w].load(Ordering::SeqCst) == i {
+                        flagged[w].store(i, Ordering::SeqCst);
+                        // returns only when the suspicion was not confirmed
                         on_hang(i - 1);
                     }
                 }
@@ -2217,16 +2221,64 @@ fn par_map<T: Sync, R: Send>(items: &[T], threads: usize, f: impl Fn(&T) -> R + 
     })
 }
 
-/// A render that does not come back: write a result file that says so and stop (the hanging thread
-/// cannot be cancelled)
-fn report_hang(case: &Case, what: &str) -> ! {
+/// CPU seconds a case must burn, alone in a child process, before "does not return" is believed
+const CONFIRM_CPU_S: u64 = 90;
+/// cases that exceeded the wall-clock cap under load but returned when run alone
+static SLOW_UNDER_LOAD: std::sync::atomic::AtomicU64 = std::sync::atomic::AtomicU64::new(0);
+
+/// Re-run one case alone in a child process (`--confirm <file>`); true only if the child burns
+/// `CONFIRM_CPU_S` seconds of CPU time without returning (wall time, i.e. machine load, plays no role)
+fn confirm_hang(case: &Case) -> bool {
+    static N: std::sync::atomic::AtomicU64 = std::sync::atomic::AtomicU64::new(0);
+    let n = N.fetch_add(1, std::sync::atomic::Ordering::SeqCst);
+    let path = std::env::temp_dir().join(format!("verif-confirm-{}-{n}.json", std::process::id()));
+    if std::fs::write(&path, serde_json::json!({"case": case_json(case)}).to_string()).is_err() {
+        return false;
+    }
+    let Ok(exe) = std::env::current_exe() else { return false };
+    let Ok(mut child) = std::process::Command::new(exe).arg("--confirm").arg(&path).stdout(std::process::Stdio::null()).stderr(std::process::Stdio::null()).spawn() else {
+        return false;
+    };
+    let confirmed = loop {
+        std::thread::sleep(std::time::Duration::from_millis(500));
+        match child.try_wait() {
+            Ok(Some(_)) => break false,
+            Ok(None) => {}
+            Err(_) => break false,
+        }
+        // utime + stime of the child, in clock ticks (fields 14 and 15 of /proc/<pid>/stat)
+        let cpu_s = std::fs::read_to_string(format!("/proc/{}/stat", child.id()))
+            .ok()
+            .and_then(|t| {
+                let after = t.rsplit_once(')')?.1.to_string();
+                let f: Vec<&str> = after.split_whitespace().collect();
+                Some((f.get(11)?.parse::<u64>().ok()? + f.get(12)?.parse::<u64>().ok()?) / 100)
+            })
+            .unwrap_or(0);
+        if cpu_s >= CONFIRM_CPU_S {
+            let _ = child.kill();
+            let _ = child.wait();
+            break true;
+        }
+    };
+    let _ = std::fs::remove_file(&path);
+    confirmed
+}
+
+/// A case exceeded the wall-clock cap: believe it only after the confirmation run; otherwise count it
+/// as slow under load and go on waiting for it
+fn report_hang(case: &Case, what: &str) {
+    if !confirm_hang(case) {
+        SLOW_UNDER_LOAD.fetch_add(1, std::sync::atomic::Ordering::SeqCst);
+        return;
+    }
     let mut report = Report::new(property());
     report.evaluations = 1;
     report.oracle_checks = 1;
     report.oracle_failures = 1;
     report.violation(
         "property",
-        format!("{what}: the render did not return within {} s (a loop that never ends, or `break`/`continue` leaving the wrong loop)", CASE_TIMEOUT_MS / 1000),
+        format!("{what}: the render did not return (more than {} s wall in the run, confirmed alone in a child process: {CONFIRM_CPU_S} s of CPU time without returning): a loop that never ends, or `break`/`continue` leaving the wrong loop", CASE_TIMEOUT_MS / 1000),
         serde_json::json!({"oracle": "render_terminates", "case": case_json(case), "rerun": rerun_hint()}),
     );
     report.rule = "aborted: a render hung".into();
@@ -2271,6 +2323,17 @@ pub fn run(prop: &str) {
     let exe = driver::driver_path(&env.verif_dir, "drv_c03");
     let threads = std::thread::available_parallelism().map(|n| n.get()).unwrap_or(8).min(16);
 
+    {
+        let args: Vec<String> = std::env::args().collect();
+        if let Some(i) = args.iter().position(|a| a == "--confirm") {
+            // child of `confirm_hang`: run exactly one case and leave
+            let text = std::fs::read_to_string(&args[i + 1]).expect("confirm file");
+            let j: serde_json::Value = serde_json::from_str(&text).expect("confirm json");
+            let case = case_from_json(&j["case"]).expect("case");
+            println!("{}", run_real(&case));
+            return;
+        }
+    }
     if let Some(path) = replay_path() {
         let text = std::fs::read_to_string(&path).expect("replay file");
         let j: serde_json::Value = serde_json::from_str(&text).expect("replay json");
@@ -2543,6 +2606,7 @@ pub fn run(prop: &str) {
     for (k, v) in hist {
         report.count_n(&k, v);
     }
+    report.count_n("slow_under_load.cases_over_wall_cap_that_returned_when_run_alone", SLOW_UNDER_LOAD.load(std::sync::atomic::Ordering::SeqCst));
     report.count_n("directed.rendered_without_error_percent", if n_directed > 0 { ok_directed * 100 / n_directed } else { 0 });
     let _ = n_mismatch_total;
 
